@@ -46,6 +46,8 @@ def run(timeout=2400, tier='quick', native=False):
         env['VERIF_TIER'] = tier
         env['VERIF_SYNTH_LAYOUT'] = os.path.join(ROOT, 'data', 'synthetic_layout.json')
         env['VERIF_MINI_DB'] = os.path.join(ROOT, 'data', 'mini_db')
+        if native:
+            env['VERIF_DATA_DIR'] = os.path.join(d, 'data')   # the bundled tables of the tree under check (heap-growth test)
         cmd = ['cargo', '+nightly', 'miri', 'test', '--offline', '--test', 'verif_ffi_miri']
         if native:
             cmd = ['cargo', 'test', '--offline', '--test', 'verif_ffi_miri', '--', '--test-threads=1']
